@@ -244,8 +244,8 @@ def layer_case(args):
     seed, ci, dti, seedkind = args
     cs = layer_cases()
     name, build = cs[ci % len(cs)]
-    dt = [np.float64, np.float32, np.float16, MixedDT(0), MixedDT(1)][dti % 5]
-    dtn = np.dtype(dt).name if not isinstance(dt, MixedDT) else f"mixed{dt.k}"
+    dt = [np.float64, np.float32, np.float16, MixedDT(0), MixedDT(1), np.dtype(">f4"), np.dtype(">f8")][dti % 7]
+    dtn = (np.dtype(dt).name + ("-byteswapped" if np.dtype(dt).byteorder == ">" else "")) if not isinstance(dt, MixedDT) else f"mixed{dt.k}"
     rng = np.random.default_rng([seed, ci, dti])
     fails = []
     try:
@@ -257,8 +257,14 @@ def layer_case(args):
             out.backward()
         elif seedkind == 1:
             out.backward(2.0)
-        else:
+        elif seedkind == 2:
             out.backward(np.ones(out.shape, dtype=np.float64))
+        elif seedkind == 3:  # a *tensor* seed of exactly L's shape and of another dtype
+            out.backward(mg.tensor(np.ones(out.shape, dtype=np.float64 if out.dtype != np.float64 else np.float32)))
+        elif seedkind == 4:  # an integer tensor seed
+            out.backward(mg.tensor(np.ones(out.shape, dtype=np.int64)))
+        else:  # an array seed of lower precision
+            out.backward(np.ones(out.shape, dtype=np.float16))
     except Exception as e:
         return {"name": name, "dtype": dtn, "fails": [f"backward raised {type(e).__name__}: {str(e)[:80]}"], "args": args}
     for j, t in enumerate(ins + [out]):
@@ -349,11 +355,12 @@ def run(ctx: Ctx) -> Outcome:
                 "which a tensor that holds a gradient changes shape (`.shape =`, tracked and inside no_autodiff, base / base of a view / view) or is updated in place inside no_autodiff")
     engcheck.report(out, results, "C14", oracle, shrinkable=False)
     cs = layer_cases()
-    items = [(ctx.seed + r, ci, dti, sk) for ci in range(len(cs)) for dti in range(5) for sk in range(3) for r in range(ctx.n(1, 4))]
+    items = [(ctx.seed + r, ci, dti, sk) for ci in range(len(cs)) for dti in range(7) for sk in range(6) for r in range(ctx.n(1, 4))
+             if dti < 5 or sk in (0, 3)]  # (byte-swapped dtypes: default and tensor seeds)
     # the GRU kernels are numba-compiled per dtype (~30 s each): float64 only in the quick tier, scheduled first
     gru_i = [i for i, (nm, _) in enumerate(cs) if nm == "gru"][0]
     # (mixed precision runs in the widest dtype, float64: no further compilation)
-    gru = [it for it in items if it[1] == gru_i and (it[2] in (0, 3, 4) or (ctx.thorough and it[2] == 1)) and it[0] == ctx.seed]
+    gru = [it for it in items if it[1] == gru_i and (it[2] in (0, 3, 4) or (ctx.thorough and it[2] == 1)) and it[0] == ctx.seed and it[3] < 4]
     items = gru + [it for it in items if it[1] != gru_i]
     res = pmap(layer_case, items)
     for r in res:
